@@ -831,6 +831,150 @@ fn dispatch_bessel(ty: &str, op: &str, operands: &[Vec<&str>]) -> Vec<String> {
     }
 }
 
+/// crate::linalg over ndarray (LU, norm, Jacobi) -- operands: n*n matrix entries in row-major order, then (for solve) n right-hand-side entries
+fn linalg_ops<D>(op: &str, aux: &[&str], operands: &[Vec<&str>]) -> Vec<String>
+where
+    D: DualNum<f64> + Copy + Probe + std::iter::Product,
+{
+    use ndarray::{Array1, Array2};
+    use num_dual::linalg::{jacobi_eigenvalue, norm, smallest_ev, LU};
+    let n: usize = aux[0].parse().unwrap();
+    let vals: Vec<D> = operands.iter().map(|t| D::rd(&mut Toks { v: t, i: 0 })).collect();
+    let mut out = vec![];
+    let o = &mut out;
+    if op == "norm" {
+        norm(&Array1::from_vec(vals)).wr(o);
+        return out;
+    }
+    let a = Array2::from_shape_vec((n, n), vals[..n * n].to_vec()).unwrap();
+    match op {
+        "lu_solve" | "lu_det" | "lu_inverse" => match LU::<D, f64>::new(a) {
+            Err(_) => o.push("err".into()),
+            Ok(lu) => {
+                o.push("okv".into());
+                match op {
+                    "lu_solve" => {
+                        let b = Array1::from_vec(vals[n * n..].to_vec());
+                        for x in lu.solve(&b).iter() {
+                            x.wr(o)
+                        }
+                    }
+                    "lu_det" => lu.determinant().wr(o),
+                    _ => {
+                        let ia = lu.inverse();
+                        for i in 0..n {
+                            for j in 0..n {
+                                ia[(i, j)].wr(o)
+                            }
+                        }
+                    }
+                }
+            }
+        },
+        "jacobi" => {
+            let (d, v) = jacobi_eigenvalue(a, 200);
+            for x in d.iter() {
+                x.wr(o)
+            }
+            for i in 0..n {
+                for j in 0..n {
+                    v[(i, j)].wr(o)
+                }
+            }
+        }
+        "smallest_ev" => {
+            let (e, v) = smallest_ev(a);
+            e.wr(o);
+            for x in v.iter() {
+                x.wr(o)
+            }
+        }
+        _ => panic!("linalg: unknown op {op}"),
+    }
+    out
+}
+
+/// nalgebra's generic decompositions over dual scalars (the four field-compatible types)
+fn nalgebra_ops<D>(op: &str, aux: &[&str], operands: &[Vec<&str>]) -> Vec<String>
+where
+    D: nalgebra::RealField + Probe + Copy,
+{
+    use nalgebra::{DMatrix, DVector};
+    let n: usize = aux[0].parse().unwrap();
+    let vals: Vec<D> = operands.iter().map(|t| D::rd(&mut Toks { v: t, i: 0 })).collect();
+    let a = DMatrix::from_row_slice(n, n, &vals[..n * n]);
+    let mut out = vec![];
+    let o = &mut out;
+    match op {
+        "na_inverse" => match a.try_inverse() {
+            None => o.push("err".into()),
+            Some(ia) => {
+                o.push("okv".into());
+                for i in 0..n {
+                    for j in 0..n {
+                        ia[(i, j)].wr(o)
+                    }
+                }
+            }
+        },
+        "na_solve" => {
+            let b = DVector::from_row_slice(&vals[n * n..]);
+            match a.lu().solve(&b) {
+                None => o.push("err".into()),
+                Some(x) => {
+                    o.push("okv".into());
+                    for v in x.iter() {
+                        v.wr(o)
+                    }
+                }
+            }
+        }
+        "na_det" => a.determinant().wr(o),
+        "na_norm" => DVector::from_row_slice(&vals).norm().wr(o),
+        "na_eigen" => {
+            let e = a.symmetric_eigen();
+            for v in e.eigenvalues.iter() {
+                v.wr(o)
+            }
+            for i in 0..n {
+                for j in 0..n {
+                    e.eigenvectors[(i, j)].wr(o)
+                }
+            }
+        }
+        _ => panic!("nalgebra: unknown op {op}"),
+    }
+    out
+}
+
+fn dispatch_linalg(ty: &str, op: &str, aux: &[&str], operands: &[Vec<&str>]) -> Vec<String> {
+    if op.starts_with("na_") {
+        return match ty {
+            "f64" => nalgebra_ops::<f64>(op, aux, operands),
+            "Dual64" => nalgebra_ops::<Dual64>(op, aux, operands),
+            "Dual2_64" => nalgebra_ops::<Dual2_64>(op, aux, operands),
+            "DualSVec64_2" => nalgebra_ops::<DualSVec64<2>>(op, aux, operands),
+            "Dual2SVec64_2" => nalgebra_ops::<Dual2SVec64<2>>(op, aux, operands),
+            _ => panic!("nalgebra: unknown type {ty}"),
+        };
+    }
+    match ty {
+        "f64" => linalg_ops::<f64>(op, aux, operands),
+        "Dual64" => linalg_ops::<Dual64>(op, aux, operands),
+        "Dual2_64" => linalg_ops::<Dual2_64>(op, aux, operands),
+        "Dual3_64" => linalg_ops::<Dual3_64>(op, aux, operands),
+        "HyperDual64" => linalg_ops::<HyperDual64>(op, aux, operands),
+        "HyperHyperDual64" => linalg_ops::<HyperHyperDual64>(op, aux, operands),
+        "DualSVec64_2" => linalg_ops::<DualSVec64<2>>(op, aux, operands),
+        "DualSVec64_3" => linalg_ops::<DualSVec64<3>>(op, aux, operands),
+        "Dual2SVec64_2" => linalg_ops::<Dual2SVec64<2>>(op, aux, operands),
+        "HyperDualSVec64_2_3" => linalg_ops::<HyperDualSVec64<2, 3>>(op, aux, operands),
+        "Dual_Dual64" => linalg_ops::<DD>(op, aux, operands),
+        "Dual2_Dual64" => linalg_ops::<Dual2<Dual64, f64>>(op, aux, operands),
+        _ => panic!("linalg: unknown type {ty}"),
+    }
+}
+
 /// simba subset / superset conversions between dual numbers over different float widths
 fn conv_pair<A, B>(op: &str, operands: &[Vec<&str>]) -> Vec<String>
 where
@@ -979,6 +1123,8 @@ fn main() {
                 dispatch_serde(head[2], &operands)
             } else if head[1] == "driver" {
                 driver(head[2], &head[3..], &operands)
+            } else if head[1] == "linalg" {
+                dispatch_linalg(head[2], head[3], &head[4..], &operands)
             } else if head[1] == "bessel" {
                 dispatch_bessel(head[2], head[3], &operands)
             } else if head[1] == "field" {
